@@ -291,21 +291,36 @@ def gen_rich(rng):
     ports = []
     for i in range(n):
         k = rng.choice(RICH_KINDS)
-        ports.append({'id': 'p%d' % i, 'kind': k, 'value': rich_value(rng, k)})
+        ports.append({'id': 'p%d' % i, 'kind': k, 'value': rich_value(rng, k), 'internal': rng.random() < 0.25})
     script, trees = [], {}
     followers = sorted(rng.sample(range(1, n), rng.randint(1, n - 1)))
     for q in followers:
         t = rich_tree(rng, ['p%d' % j for j in range(q)], rng.choice([0, 1, 1, 2, 3]))
         if t[0] == 'lit':
             t = ('pv', 'p%d' % rng.randrange(q))
+        if rng.random() < 0.15:
+            # results the port cannot take for some source values (int(inf): OverflowError, float(complex): TypeError): the
+            # evaluation task must survive them and follow again afterwards
+            a = ('pv', 'p%d' % rng.randrange(q))
+            t = rng.choice([
+                ('call', 'MUL', [('call', 'MUL', [a, ('lit', '1e308', 1e308)]), ('lit', '1e10', 1e10)]),
+                ('call', 'IF', [('call', 'GT', [a, ('lit', '2', 2)]), ('call', 'POW', [('lit', '-4', -4), ('lit', '0.5', 0.5)]), a]),
+            ])
         trees['p%d' % q] = t
     order = list(followers)
     rng.shuffle(order)
     pending = list(order)
     sources = [i for i in range(n) if i not in followers]
+    off = set()
     for _ in range(rng.randint(2, 9)):
         r = rng.random()
-        if pending and r < 0.5:
+        hsrc = [i for i in sources if ports[i]['kind'].startswith('h') and not ports[i]['internal'] and i not in off]   # internal / disabled ports raise no event
+        if pending and r < 0.12 and hsrc:
+            # the expression is assigned by a synchronous event handler in the middle of a polling pass
+            q = pending.pop()
+            i = rng.choice(hsrc)
+            script.append(['expr-in-handler', 'p%d' % q, trees['p%d' % q], 'p%d' % i, ('toggle', ports[i]['kind'])])
+        elif pending and r < 0.5:
             q = pending.pop()
             script.append(['expr', 'p%d' % q, trees['p%d' % q]])
         elif r < 0.9 or not sources:
@@ -314,15 +329,28 @@ def gen_rich(rng):
         else:
             i = rng.choice(sources)
             script.append(['disable', 'p%d' % i])
+            off.add(i)
             script.append(['set', 'p%d' % rng.choice(sources), rich_value(rng, ports[rng.choice(sources)]['kind'])])
             if rng.random() < 0.8:
                 script.append(['enable', 'p%d' % i])
+                off.discard(i)
     for q in pending:
         script.append(['expr', 'p%d' % q, trees['p%d' % q]])
-    if sources:       # finish with changes after every expression is in place
+    if sources and rng.random() < 0.8:       # mostly finish with changes after every expression is in place
         for _ in range(rng.randint(1, 3)):
             i = rng.choice(sources)
             script.append(['set', 'p%d' % i, rich_value(rng, ports[i]['kind'])])
+    # the value an in-handler assignment is triggered by must differ from what the source shows at that moment
+    cur = {p['id']: p['value'] for p in ports}
+    for c in script:
+        if c[0] == 'set':
+            cur[c[1]] = c[2]
+        elif c[0] == 'expr-in-handler':
+            old = cur.get(c[3])
+            k = c[4][1]
+            new = (not old) if k.endswith('bool') else ((old or 0) + 1)
+            c[4] = bool(new) if k.endswith('bool') else (int(new) if k.endswith('int') else float(new))
+            cur[c[3]] = c[4]
     # 'set' values must fit the kind of the port they go to
     for c in script:
         if c[0] == 'set':
@@ -334,6 +362,10 @@ def gen_rich(rng):
 
 
 RICH_CORPUS = [
+    # disabling a port changes the value of the expressions that tolerate a disabled port (DEFAULT / AVAILABLE)
+    {'ports': [{'id': 'p0', 'kind': 'hint', 'value': 0}, {'id': 'p1', 'kind': 'hint', 'value': 5}, {'id': 'p2', 'kind': 'vbool', 'value': None}],
+     'script': [['expr', 'p1', ('call', 'DEFAULT', [('pv', 'p0'), ('lit', '1', 1)])], ['expr', 'p2', ('call', 'AVAILABLE', [('pv', 'p0')])],
+                ['disable', 'p0']]},
     # a virtual follower of a sensor that becomes unavailable must become unavailable itself
     {'ports': [{'id': 'p0', 'kind': 'hnum', 'value': 21.5}, {'id': 'p1', 'kind': 'vnum', 'value': None},
                {'id': 'p2', 'kind': 'vnum', 'value': None}],
@@ -350,9 +382,18 @@ def run_rich_worker(scenarios):
     from harness.props import c02
     wire = []
     for sc in scenarios:
-        wire.append({'ports': [{'id': p['id'], 'kind': p['kind'], 'value': w.enc(p['value'])} for p in sc['ports']],
-                     'script': [[c[0], c[1], (c02.text_of(c[2]) if c[0] == 'expr' else w.enc(c[2]))] if len(c) > 2 else c
-                                for c in sc['script']]})
+        script = []
+        for c in sc['script']:
+            if c[0] == 'expr':
+                script.append([c[0], c[1], c02.text_of(c[2])])
+            elif c[0] == 'expr-in-handler':
+                script.append([c[0], c[1], c02.text_of(c[2]), c[3], w.enc(c[4])])
+            elif c[0] == 'set':
+                script.append([c[0], c[1], w.enc(c[2])])
+            else:
+                script.append(c)
+        wire.append({'ports': [{'id': p['id'], 'kind': p['kind'], 'value': w.enc(p['value']), 'internal': bool(p.get('internal'))}
+                               for p in sc['ports']], 'script': script})
     env = dict(os.environ)
     env['PYTHONPATH'] = coq.VERIF + ':' + repo.REPO
     p = subprocess.run([sys.executable, '-m', 'harness.props.c01_rich_worker'], input=json.dumps(wire), capture_output=True,
@@ -383,8 +424,13 @@ def check_rich(ctx, res, scenarios, tag):
             continue
         trees = {}
         for c in sc['script']:
-            if c[0] == 'expr':
+            if c[0] in ('expr', 'expr-in-handler'):
                 trees[c[1]] = c[2]
+        if r.get('armed_left'):
+            res['tie_failures'].append({'scenario': ws, 'note': 'typed stream: an in-handler assignment was never triggered'})
+            continue
+        d['typed_expr_assigned_mid_pass'] = d.get('typed_expr_assigned_mid_pass', 0) + sum(1 for c in sc['script'] if c[0] == 'expr-in-handler')
+        d['typed_internal_ports'] = d.get('typed_internal_ports', 0) + sum(1 for p in sc['ports'] if p.get('internal'))
         for pid, kind, en, last, text in r['ports']:
             d['typed_kind:' + kind] = d.get('typed_kind:' + kind, 0) + 1
             if last is None:
